@@ -530,15 +530,17 @@ class AsyncHTTP2Connection(AsyncConnectionInterface):
                     elif isinstance(event, h2.events.ConnectionTerminated):
                         self._connection_terminated = event
 
+                # The h2 state has applied the new settings already. Our own
+                # bookkeeping follows at once - it does not wait for anything -
+                # and only then is the trace callback, which may be interrupted,
+                # told about it.
                 for event in settings_changes:
-                    # The h2 state has applied the new settings already. Our own
-                    # bookkeeping has to follow, whatever happens to this request.
-                    with AsyncShieldCancellation():
-                        async with Trace(
-                            "receive_remote_settings", logger, request
-                        ) as trace:
-                            await self._receive_remote_settings_change(event)
-                            trace.return_value = event
+                    await self._receive_remote_settings_change(event)
+                for event in settings_changes:
+                    async with Trace(
+                        "receive_remote_settings", logger, request
+                    ) as trace:
+                        trace.return_value = event
 
         await self._write_outgoing_data(request)
 
